@@ -97,7 +97,8 @@ func SetRoot(dir string) {
 
 // SetFail arms a single fault: "kind:k" fails the k-th (1-based) op of that kind. "" disarms.
 // "kind:k:enospc" makes the error a wrapped syscall.ENOSPC (what a full volume answers; the next attempt succeeds),
-// "write:k:enospc-torn" additionally applies the first half of the write before failing.
+// "write:k:enospc-torn" additionally applies the first half of the write before failing,
+// "write:k:enospc-sticky" fails the k-th and EVERY later write with ENOSPC (the volume stays full: retries fail too).
 func SetFail(spec string) {
 	mu.Lock()
 	defer mu.Unlock()
@@ -177,7 +178,7 @@ func before(kind string, path string) error {
 	opCnt[kind]++
 	if failKind == kind {
 		failCnt[kind]++
-		if failCnt[kind] == failAt {
+		if failCnt[kind] == failAt || (failMode == "enospc-sticky" && failCnt[kind] > failAt) {
 			Failed = true
 			if failMode != "" {
 				return &realos.PathError{Op: kind, Path: path, Err: syscall.ENOSPC}
